@@ -618,24 +618,21 @@ fn short(s: String) -> String {
     s.chars().take(140).collect()
 }
 
-async fn run_reports(w: &World) -> Outcome {
-    let mut out = Outcome::default();
-    let p0 = PANICS.load(Ordering::SeqCst);
-    let deadline = tokio::time::Instant::now() + REPORT_HORIZON;
-    let mut complete_a = false;
+async fn run_account(w: &World, out: &mut Outcome, deadline: tokio::time::Instant) -> bool {
     let t0 = std::time::Instant::now();
+    let mut complete = false;
     match account_integrity(&w.target, &w.account_id, w.folders.clone(), 1).await {
         Err(e) => out.error = Some(format!("account_integrity: {}", e)),
         Ok((mut rx, _cancel)) => loop {
             match tokio::time::timeout_at(deadline, rx.recv()).await {
                 Err(_) => break,
                 Ok(None) => {
-                    complete_a = true;
+                    complete = true;
                     break;
                 }
                 Ok(Some(FolderIntegrityEvent::Failure(id, f))) => out.folder_fail.push((id.to_string(), short(format!("{:?}", f)))),
                 Ok(Some(FolderIntegrityEvent::Complete)) => {
-                    complete_a = true;
+                    complete = true;
                     break;
                 }
                 Ok(Some(_)) => {}
@@ -643,30 +640,65 @@ async fn run_reports(w: &World) -> Outcome {
         },
     }
     T_ACCOUNT_US.fetch_add(t0.elapsed().as_micros() as u64, Ordering::Relaxed);
+    complete
+}
+
+async fn run_files(w: &World, out: &mut Outcome, deadline: tokio::time::Instant) -> bool {
+    if w.files.is_empty() {
+        return true;
+    }
     let t1 = std::time::Instant::now();
-    let mut complete_f = w.files.is_empty();
-    if !w.files.is_empty() {
-        match file_integrity(&w.target, w.files.clone(), 1).await {
-            Err(e) => out.error = Some(format!("file_integrity: {}", e)),
-            Ok((mut rx, _cancel)) => loop {
-                match tokio::time::timeout_at(deadline, rx.recv()).await {
-                    Err(_) => break,
-                    Ok(None) => {
-                        complete_f = true;
-                        break;
-                    }
-                    Ok(Some(FileIntegrityEvent::Failure(file, f))) => out.file_fail.push((file.to_string(), short(format!("{:?}", f)))),
-                    Ok(Some(FileIntegrityEvent::Complete)) => {
-                        complete_f = true;
-                        break;
-                    }
-                    Ok(Some(_)) => {}
+    let mut complete = false;
+    match file_integrity(&w.target, w.files.clone(), 1).await {
+        Err(e) => out.error = Some(format!("file_integrity: {}", e)),
+        Ok((mut rx, _cancel)) => loop {
+            match tokio::time::timeout_at(deadline, rx.recv()).await {
+                Err(_) => break,
+                Ok(None) => {
+                    complete = true;
+                    break;
                 }
-            },
-        }
+                Ok(Some(FileIntegrityEvent::Failure(file, f))) => out.file_fail.push((file.to_string(), short(format!("{:?}", f)))),
+                Ok(Some(FileIntegrityEvent::Complete)) => {
+                    complete = true;
+                    break;
+                }
+                Ok(Some(_)) => {}
+            }
+        },
     }
     T_FILE_US.fetch_add(t1.elapsed().as_micros() as u64, Ordering::Relaxed);
-    out.complete = complete_a && complete_f;
+    complete
+}
+
+fn flagged(t: &Target, o: &Outcome) -> Option<String> {
+    match (&t.folder, &t.blob) {
+        (Some(f), _) => o.folder_fail.iter().find(|x| &x.0 == f).map(|x| x.1.clone()),
+        (_, Some(b)) => o.file_fail.iter().find(|x| &x.0 == b).map(|x| x.1.clone()),
+        _ => None,
+    }
+}
+
+/// Both reports (account_integrity over all folders, file_integrity over
+/// all canonical files). With a target: the report that covers the
+/// affected item runs first and the other one is only consulted when the
+/// first holds no failure for the item (the verdict is the same as
+/// running both, an item flagged by either report counts as flagged).
+async fn run_reports(w: &World, t: Option<&Target>) -> Outcome {
+    let mut out = Outcome::default();
+    let p0 = PANICS.load(Ordering::SeqCst);
+    let deadline = tokio::time::Instant::now() + REPORT_HORIZON;
+    let files_first = t.map(|t| t.blob.is_some()).unwrap_or(false);
+    let c1 = if files_first { run_files(w, &mut out, deadline).await } else { run_account(w, &mut out, deadline).await };
+    let settled = t.map(|t| flagged(t, &out).is_some()).unwrap_or(false);
+    let c2 = if settled {
+        true
+    } else if files_first {
+        run_account(w, &mut out, deadline).await
+    } else {
+        run_files(w, &mut out, deadline).await
+    };
+    out.complete = c1 && c2;
     // let a panicking report task finish unwinding before the count is read
     if !out.complete {
         tokio::time::sleep(Duration::from_millis(20)).await;
@@ -677,11 +709,7 @@ async fn run_reports(w: &World) -> Outcome {
 
 /// verdict of one evaluation
 fn verdict(t: &Target, o: &Outcome, removal: bool) -> (&'static str, String) {
-    let flagged = match (&t.folder, &t.blob) {
-        (Some(f), _) => o.folder_fail.iter().find(|x| &x.0 == f).map(|x| x.1.clone()),
-        (_, Some(b)) => o.file_fail.iter().find(|x| &x.0 == b).map(|x| x.1.clone()),
-        _ => None,
-    };
+    let flagged = flagged(t, o);
     if let Some(f) = flagged {
         return ("flagged", f);
     }
@@ -771,7 +799,7 @@ async fn evaluate(w: &World, t: &Target, only: Option<&str>, tally: &mut Tally) 
                 }
                 let nb = mutate(m, orig);
                 f.write_all_at(&[nb], t.offset)?;
-                let o = run_reports(w).await;
+                let o = run_reports(w, Some(t)).await;
                 f.write_all_at(&[orig], t.offset)?;
                 let (v, why) = verdict(t, &o, false);
                 if v == "flagged" && !o.complete {
@@ -793,7 +821,7 @@ async fn evaluate(w: &World, t: &Target, only: Option<&str>, tally: &mut Tally) 
                 let mut nb = orig.clone();
                 nb[pos] = mutate(m, orig[pos]);
                 db_set(w, t, nb).await?;
-                let o = run_reports(w).await;
+                let o = run_reports(w, Some(t)).await;
                 db_set(w, t, orig.clone()).await?;
                 let (v, why) = verdict(t, &o, false);
                 if v == "flagged" && !o.complete {
@@ -807,7 +835,7 @@ async fn evaluate(w: &World, t: &Target, only: Option<&str>, tally: &mut Tally) 
                 let path = w.dir.join(&t.file);
                 let away = w.dir.join("removed-by-integx");
                 std::fs::rename(&path, &away)?;
-                let o = run_reports(w).await;
+                let o = run_reports(w, Some(t)).await;
                 std::fs::rename(&away, &path)?;
                 let (v, why) = verdict(t, &o, true);
                 tally.record(w, t, "remove", v, why);
@@ -825,7 +853,7 @@ async fn evaluate(w: &World, t: &Target, only: Option<&str>, tally: &mut Tally) 
                     _ => "DELETE FROM folder_secrets WHERE folder_id = (SELECT folder_id FROM folders WHERE identifier = ?1)",
                 };
                 let n = client.conn(move |c| c.execute(sql, [fid])).await?;
-                let o = run_reports(&w2).await;
+                let o = run_reports(&w2, Some(t)).await;
                 let (v, mut why) = verdict(t, &o, true);
                 why = format!("{} ({} rows deleted)", why, n);
                 w2.close().await;
@@ -882,7 +910,7 @@ struct Item {
 }
 
 fn rt() -> tokio::runtime::Runtime {
-    tokio::runtime::Builder::new_multi_thread().worker_threads(2).enable_all().build().unwrap()
+    tokio::runtime::Builder::new_current_thread().enable_all().build().unwrap()
 }
 
 fn install_panic_hook() {
@@ -906,7 +934,7 @@ async fn worker_world(base: &Path, wd: &Path, backend: Backend) -> Result<(World
     let w = World::open(&copy, backend, account_id).await?;
     let digest = content_digest(&copy);
     // soundness on the private copy before anything is touched
-    let o = run_reports(&w).await;
+    let o = run_reports(&w, None).await;
     if !o.folder_fail.is_empty() || !o.file_fail.is_empty() || !o.complete || o.error.is_some() {
         return Err(anyhow!("the untouched copy does not give a clean report: {:?}", o));
     }
@@ -934,7 +962,7 @@ async fn run_item(wk: &mut Worker, base: &Path, it: &Item) -> Value {
     if &content_digest(&w.dir) != digest && it.backend == Backend::Fs {
         return json!({"error": "the private copy was not restored after the mutations"});
     }
-    let o = run_reports(w).await;
+    let o = run_reports(w, None).await;
     if !o.folder_fail.is_empty() || !o.file_fail.is_empty() || !o.complete {
         return json!({"error": format!("after restoring all mutations the report is not clean: {:?}", o)});
     }
